@@ -10,9 +10,18 @@ for d in sorted(glob.glob("/verif/seeded/*/")):
     s0 = sig[0] if sig else ""
     if isinstance(s0, list):
         s0 = ",".join(s0)
+    later = ""
+    for key in ("after_strengthening", "on_repaired_tree"):
+        if "caught_by_check_" + key in m:
+            a = m[key].get("check", {})
+            sg = a.get("signatures", [])
+            sg0 = sg[0] if sg else ""
+            if isinstance(sg0, list):
+                sg0 = ",".join(sg0)
+            later += f"{key}: {m['caught_by_check_' + key]}" + (f" ({str(sg0)[:50]})" if sg0 else "") + "; "
     rows.append((os.path.basename(d.rstrip("/")), (m.get("summary") or "")[:110].replace("|", "/"),
-                 f"{v.get('demo_pristine', ['?'])[0]}→{v.get('demo_patched', ['?'])[0]}", m.get("caught_by_check", "?"), str(s0)[:70]))
-print("| seed | change | demo (pristine→patched) | caught by its check | first signature |")
-print("|---|---|---|---|---|")
+                 f"{v.get('demo_pristine', ['?'])[0]}→{v.get('demo_patched', ['?'])[0]}", m.get("caught_by_check", "?"), str(s0)[:70], later))
+print("| seed | change | demo (pristine→patched) | first run of its check | first signature | later runs |")
+print("|---|---|---|---|---|---|")
 for r in rows:
     print("| " + " | ".join(r) + " |")
